@@ -35,6 +35,7 @@ func checkC12(c *Ctx, e *Env) {
 	p := m.P
 	noteUndecided(c, m, r, "C12.E1")
 	importObligations(c, e, checkC06, "C06", "C12.ESCROW", "escrow-covers-open-orders", "the begin-block refund subtracts every expired order from its seller's escrow; it cannot fail only while escrow equals the sum of the open orders", func(o *Oblig) bool { return o.Rule == "C06.EQ" })
+	importObligations(c, e, checkC10, "C10", "C12.LOUD", "begin block#no-recover", "a failure of the begin-block prune is loud (the module panics on its error): a recover() on the way would turn a failed or out-of-gas prune into a silent nil, and expired orders would stay open", func(o *Oblig) bool { return o.Rule == "C10.D8" || o.Rule == "C10.CLOSURE" })
 	ruleArith(c, e, "C12.ARITH", func(ep *EntryPoint) bool {
 		return ep.Service == "marketplace" && (ep.Kind == "msg" || ep.Kind == "beginblock")
 	})
